@@ -142,8 +142,8 @@ def regimes(tr):
         b = 0
         for n in hdr["stackedLens"][:-1]:
             b += n
-            if labels[b - 1] != labels[b]:
-                r.add("label_change_at_series_boundary")
+            if 0 < b < len(labels) and labels[b - 1] != labels[b]:      # (defensive: a broken build may
+                r.add("label_change_at_series_boundary")                 #  return fewer labels than rows)
     if hdr["mp"] and hdr["P"] > 1:
         r.add("multi_process_pool")
     rounds = sum(1 for e in ev if e["ev"] == "round_begin")
@@ -192,11 +192,15 @@ def validate_property(rep, pid, traces, *, need=(), shards=None):
                       f"run id={t['hdr']['id']} fe={t['hdr']['fe']}")
     seen = set()
     for t in traces:
-        for r in regimes(t):
+        try:
+            rs = regimes(t)
+        except Exception:                                    # pylint: disable=broad-except
+            rs = {"regime_accounting_failed"}                # statistics only - never turn a verdict into a crash
+        for r in rs:
             rep.regime(r)
             seen.add(r)
     missing = [n for n in need if n not in seen]
-    if missing:
+    if missing and not failures:
         raise common.MachineryError(f"{pid}: the corpus did not enter required regimes {missing} "
                                     f"(anti-vacuity, DESIGN 5.2)")
     return accepted, failures
